@@ -9,6 +9,7 @@ import (
 	"strings"
 	"testing"
 
+	"github.com/dop251/goja"
 	gast "github.com/dop251/goja/ast"
 	gparser "github.com/dop251/goja/parser"
 	"github.com/dop251/goja/unistring"
@@ -32,13 +33,17 @@ type c07Case struct {
 	Lits []c07Lit `json:"lits"`
 	// Ctx places the literals: 0 = top-level print(...) statements; 1 = inside a
 	// function body after blank lines; 2 = inside nested blocks with comments and
-	// blank lines; 3 = as initialisers and a return value inside nested functions.
+	// blank lines; 3 = as initialisers and a return value inside nested functions;
+	// 4 = string and number literals as the property keys of object literals.
 	Ctx int `json:"ctx,omitempty"`
 }
 
 var c07Cfgs = []Cfg{{}, {Pretty: true, Indent: 99}, {Pretty: true, Indent: -1, NoSemi: true}, {Pretty: true, Indent: 4}, {Pretty: true, Indent: 8, NoSemi: true}}
 
 var errRefLimit = errors.New("reference parser limitation")
+
+// keyRuntime converts numeric property keys to the property name they denote.
+var keyRuntime = goja.New()
 
 // litValues parses text with goja and returns the decoded value of every
 // string/number/template literal in source order ("s:<hex units>" / "n:<bits>").
@@ -102,6 +107,19 @@ func litValues(src string) (vals []string, err error) {
 				}
 				all = append(all, found{int(n.Idx0()), fmt.Sprintf("n:%016x", math.Float64bits(f))})
 				return
+			case *gast.PropertyKeyed:
+				// a property key is compared as the property name it denotes, so
+				// that a printer may spell `"1"` as `1` or `"a"` as `a`
+				switch k := n.Key.(type) {
+				case *gast.StringLiteral:
+					all = append(all, found{int(k.Idx0()), enc(k.Value)})
+				case *gast.NumberLiteral:
+					all = append(all, found{int(k.Idx0()), enc(unistring.NewFromString(keyRuntime.ToValue(k.Value).String()))})
+				default:
+					walk(reflect.ValueOf(n.Key))
+				}
+				walk(reflect.ValueOf(n.Value))
+				return
 			case *gast.TemplateLiteral:
 				for k, el := range n.Elements {
 					all = append(all, found{int(n.Idx0()) + k, "t" + enc(el.Parsed)})
@@ -141,6 +159,16 @@ func unitsKey(u []uint16) string {
 func c07Program(lits []c07Lit, ctx int) string {
 	flat := c07Flat(lits)
 	switch ctx {
+	case 4:
+		var b strings.Builder
+		for _, l := range lits {
+			if l.Src[0] == '`' {
+				fmt.Fprintf(&b, "print(%s);\n", l.Src)
+			} else {
+				fmt.Fprintf(&b, "print({%s: null});\n", l.Src)
+			}
+		}
+		return b.String()
 	case 1:
 		return "function f0() {\n\n\n" + flat + "}\nf0();\n"
 	case 2:
@@ -432,7 +460,7 @@ func c07Gen(t *rapid.T, rec *evid.Recorder) c07Case {
 			lits = append(lits, c07Lit{Src: c07NumText(r)})
 		}
 	}
-	return c07Case{Lits: lits, Ctx: r.Intn(4, "ctx")}
+	return c07Case{Lits: lits, Ctx: r.Intn(5, "ctx")}
 }
 
 // exhaustive single-piece strings, partitioned over the shards in batches.
@@ -556,6 +584,8 @@ func c07EnumPieces(rec *evid.Recorder, add func(ir.Piece), rawLit func(c07Lit)) 
 }
 
 var c07Witnesses = []c07Case{
+	{Ctx: 4, Lits: []c07Lit{{Src: "\"007\""}, {Src: "'01'"}, {Src: "\"9007199254740993\""}, {Src: "\"0\""}, {Src: "\"42\""}, {Src: "'a b'"}, {Src: "''"}, {Src: "\"if\""}, {Src: "1.50"}, {Src: "0x10"}, {Src: "1e21"}, {Src: "010"}, {Src: "'1e3'"}, {Src: "'0x10'"}, {Src: "'-1'"}, {Src: "'1.0'"}}},
+	{Lits: []c07Lit{{Src: "\"caf\\é\""}, {Src: "'\\€'"}, {Src: "\"\\😀\""}, {Src: "'a\\\u2028b'"}, {Src: "'a\\\u2029b'"}, {Src: "'a\\1\\x31b'"}, {Src: "\"\\12\\u0033\""}, {Src: "'\\377\\u{38}'"}}},
 	{Lits: []c07Lit{{Src: "'say \"hi\"'"}, {Src: "\"it's\""}, {Src: "'\\x22'"}, {Src: "'\\u0022'"}, {Src: "'\\x5C'"}, {Src: "'\\u{5c}n'"}, {Src: "'\\x0A'"}, {Src: "'\\xE9'"}, {Src: "'\\uD83D'"}, {Src: "'\\uD83D\\uDE00'"}, {Src: "'\\u{1F600}'"}, {Src: "'\\u2028'"}}},
 	{Lits: []c07Lit{{Src: "`a \\` b`"}, {Src: "`\\\\`"}, {Src: "`x  \n  y`"}, {Src: "'line\\\ncont'"}, {Src: "`a\r\nb`"}, {Src: "`$ {x}`"}}},
 	{Lits: []c07Lit{{Src: "0"}, {Src: "1.50"}, {Src: "1e21"}, {Src: "2.5E-3"}, {Src: "0xFF"}, {Src: "0b101"}, {Src: "0o17"}, {Src: "9007199254740993"}, {Src: "123456789012345678"}, {Src: "5e-324"}, {Src: "1.7976931348623157e308"}}},
